@@ -325,7 +325,21 @@ fn nontrivial(c: &Case) -> bool {
 
 fn run_case(ctx: &Ctx, scratch: &Path, c: &Case, drop_uid: bool) -> Check {
     ctx.eval();
-    let root = scratch.join(format!("s-{:016x}-{}", hash_of(c), drop_uid));
+    let (r, classes) = run_case_pure(scratch, c, drop_uid);
+    for cl in classes {
+        ctx.class(cl);
+    }
+    r
+}
+
+fn run_case_pure(scratch: &Path, c: &Case, drop_uid: bool) -> (Check, Vec<&'static str>) {
+    let classes: std::cell::RefCell<Vec<&'static str>> = std::cell::RefCell::new(vec![]);
+    let r = run_case_inner(scratch, c, drop_uid, &classes);
+    (r, classes.into_inner())
+}
+
+fn run_case_inner(scratch: &Path, c: &Case, drop_uid: bool, classes: &std::cell::RefCell<Vec<&'static str>>) -> Check {
+    let root = scratch.join(format!("s-{:016x}-{}-{}", hash_of(c), drop_uid, crate::core::uniq()));
     let _ = fsutil::force_remove(&root);
     std::fs::create_dir_all(&root).unwrap();
     build_scenario(&root, c);
@@ -359,7 +373,7 @@ fn run_case(ctx: &Ctx, scratch: &Path, c: &Case, drop_uid: bool) -> Check {
         }
         let ok = res["ok"] == true;
         if ok {
-            ctx.class("outcome:ok");
+            classes.borrow_mut().push("outcome:ok");
             // (b) the layer is a real, empty directory and no old entry exists
             let lay = root.join("layers/lay");
             let md = std::fs::symlink_metadata(&lay).map_err(|e| Fail::new("C11:layer-missing-after-ok", e.to_string()))?;
@@ -371,7 +385,7 @@ fn run_case(ctx: &Ctx, scratch: &Path, c: &Case, drop_uid: bool) -> Check {
                 return Err(Fail::new("C11:sbom-survives", "lay.sbom.syft.json survived the deletion"));
             }
         } else {
-            ctx.class("outcome:error");
+            classes.borrow_mut().push("outcome:error");
             // a real directory owned by the caller must be deletable whatever its modes: a failure OF THE DELETION
             // (not of reading the layer beforehand, which may legitimately fail on unreadable env directories)
             if c.top == Top::RealDir && res["err"].as_str().unwrap_or("").contains("DeleteLayerError") {
@@ -392,24 +406,43 @@ pub fn run(ctx: &Ctx) {
     for (_p, v) in ctx.regress_files() {
         replay(ctx, "", &v["case"]);
     }
-    let cases = ctx.tier.pick(1500, 40_000);
-    ctx.run_prop("trees", case_strategy(), cases, case_json, |c| {
-        if nontrivial(c) {
-            ctx.class("nontrivial");
-            ctx.nontrivial(hash_of(c));
-            if (ctx.samples_len() < 2 || hash_of(c) % 211 == 0) {
-                ctx.sample(6, || case_json(c));
+    let cases = ctx.tier.pick(30_000, 300_000);
+    ctx.run_prop_par(
+        "trees",
+        case_strategy(),
+        cases,
+        case_json,
+        |c| {
+            let (r, mut classes) = run_case_pure(&scratch.path, c, true);
+            let mut evals = 1u64;
+            if r.is_err() {
+                return (r, (classes, evals));
             }
-        }
-        ctx.class(&format!("top:{:?}", c.top));
-        ctx.class(&format!("route:{:?}", c.route));
-        run_case(ctx, &scratch.path, c, true)?;
-        if hash_of(c) % 3 == 0 {
-            ctx.class("also-as-root");
-            run_case(ctx, &scratch.path, c, false)?;
-        }
-        Ok(())
-    });
+            if hash_of(c) % 3 == 0 {
+                classes.push("also-as-root");
+                let (r2, c2) = run_case_pure(&scratch.path, c, false);
+                classes.extend(c2);
+                evals += 1;
+                return (r2, (classes, evals));
+            }
+            (r, (classes, evals))
+        },
+        |c, (classes, evals)| {
+            ctx.eval_n(evals);
+            for cl in classes {
+                ctx.class(cl);
+            }
+            if nontrivial(c) {
+                ctx.class("nontrivial");
+                ctx.nontrivial(hash_of(c));
+                if (ctx.samples_len() < 2 || hash_of(c) % 211 == 0) {
+                    ctx.sample(6, || case_json(c));
+                }
+            }
+            ctx.class(&format!("top:{:?}", c.top));
+            ctx.class(&format!("route:{:?}", c.route));
+        },
+    );
 }
 
 pub fn replay(ctx: &Ctx, _sub: &str, case: &Value) {
